@@ -67,7 +67,7 @@ var jobKinds = map[string]func(j Job, r *JobResult){}
 
 // exploreJob is the common shape: explore Sys with a configuration hook.
 func exploreJob(j Job, r *JobResult, s Sys, conf func(e *Explorer)) {
-	e := &Explorer{Sys: s, Want: j.Prop}
+	e := &Explorer{Sys: s, Want: j.Prop, OutGuard: j.Prop == "C17"}
 	if j.DeadlineS > 0 {
 		e.Deadline = time.Now().Add(time.Duration(j.DeadlineS) * time.Second)
 	}
@@ -200,7 +200,7 @@ func runWorker(j Job, journal bool, tag string) runOut {
 	cmd.Stdout = &errb
 	cmd.Env = append(os.Environ(), "GOMAXPROCS="+strconv.Itoa(j.p("gomaxprocs", 2)), "GOTRACEBACK=single")
 	if j.S["binary"] == "race" {
-		cmd.Env = append(cmd.Env, "GORACE=halt_on_error=0 history_size=3 log_path="+base+".race")
+		cmd.Env = append(cmd.Env, "GORACE=halt_on_error=0 history_size=4")
 	}
 	t0 := time.Now()
 	err := cmd.Start()
